@@ -10,3 +10,4 @@ import GoFlags.Props.C03
 #print axioms GoFlags.C03.passthrough_is_suffix
 #print axioms GoFlags.C03.passthrough_verbatim
 #print axioms GoFlags.C03.dispatch_passes_retargs
+#print axioms GoFlags.C03.remaining_are_exactly_the_words
